@@ -72,6 +72,7 @@ Theorem C12_init_race_safe : forall (frepr : fl -> str) (w1 w2 : str) (wr : path
   get f0 (w1 :: w2 :: wr) = Some Dir ->
   NoDup (map r_tag specs) ->
   (forall s t, In s specs -> In t specs -> jid frepr s = jid frepr t -> r_sp s = r_sp t) ->
+  (forall s, In s specs -> is_jnull (r_sp s) = false) ->
   (forall s, In s specs -> pre_ok frepr w1 w2 wr f0 s) ->
   forall sched : list nat,
   let '(f1, os) := interleave sched f0 (map (rprog frepr w1 w2 wr) specs) in
